@@ -8,3 +8,6 @@ template SizeT Digit::IntToString<false, char, SizeT32>(char *, SizeT32) noexcep
 template SizeT Digit::IntToString<false, char, SizeT64>(char *, SizeT64) noexcept;
 template SizeT Digit::IntToString<true, char, SizeT64>(char *, SizeT64) noexcept;
 }
+namespace Qentem {
+template void Digit::realToString<double, QV::GStream<char>, SizeT64>(QV::GStream<char> &, const SizeT64, const Digit::RealFormatInfo);
+}
